@@ -299,3 +299,37 @@ def stage_lazy(ctx, name, *, bases=(0,), consts=None, max_run=60):
             name, stats["branch"], stats["twin_comparisons"], stats["twin_answers_compared"],
             stats["model_branch_agree"], stats["model_branch_disagree"]))
         ctx.notes.setdefault("get_branches", {}).update({name: dict(stats["branch"])})
+
+
+def stage_repo_tests(ctx):
+    """code -> spec on executions nobody wrote for this purpose: the repository's own test-suite runs
+    against the package built from /repo under a recording plugin; every IR alive after every test is
+    walked through the public API and TLC judges Forest / Cache / Bytes on it (CoherentJudge.tla)."""
+    import shutil
+    import subprocess
+    import sys
+    from . import faults
+    from .build import REPO, workdir
+    from .core import VERIF
+    if WARM:
+        return
+    wd = workdir("gtirbverif-rt-")
+    shutil.copytree(os.path.join(REPO, "python", "tests"), os.path.join(wd, "tests"))
+    recs = os.path.join(wd, "records.ndjson")
+    env = dict(os.environ, VERIF_TEST_RECORDS=recs,
+               PYTHONPATH=os.pathsep.join([ctx.pkg_root, VERIF]))
+    p = subprocess.run([sys.executable, "-m", "pytest", "-q", "-p", "no:cacheprovider", "-p", "harness.testplugin", "tests"],
+                       cwd=wd, env=env, capture_output=True, text=True, timeout=900)
+    tail = (p.stdout or "").strip().splitlines()[-1:] or [""]
+    records = [json.loads(x) for x in open(recs)] if os.path.exists(recs) else []
+    bad, states = faults.judge_coherence(records)
+    ctx.states += states
+    ctx.traces += len(records)
+    for i, failing in bad:
+        _file(ctx, {"kind": "test-state", "props": ["C03" if failing == ["Cache"] else "C04"],
+                    "op": {"name": "repository test", "test": records[i].get("test")},
+                    "expected": "Forest, Cache, Bytes hold", "observed": {"failing": failing},
+                    "history": [], "signature": "teststate:%s" % ",".join(sorted(failing))})
+    ctx.stages.append({"stage": "repository-tests-judged", "pytest": tail[0], "irs_recorded": len(records),
+                       "rejected_by_tlc": len(bad)})
+    ctx.log("repository tests: %s; %d live IRs recorded, %d rejected by TLC" % (tail[0], len(records), len(bad)))
